@@ -3,7 +3,7 @@
 From Coq Require Import List NArith ZArith Bool Lia Permutation.
 From Common Require Import Outcome.
 From BlockTree Require Import Model Spec ProofsTree ProofsPath ProofsSpec ProofsSim ProofsQuery
-  ProofsBest ProofsHist ProofsNum ProofsFin.
+  ProofsBest ProofsHist ProofsNum ProofsFin ProofsWrap.
 From C17 Require Import Model Spec ProofsAssoc Proofs ProofsFinal.
 Import ListNotations.
 Local Open Scope N_scope.
@@ -127,6 +127,16 @@ Section Observables.
     apply (i_hdr _ _ _ I). apply in_map_iff. exists (n, x). auto.
   Qed.
 
+  (* ... and the whole block is retrieved by number *)
+  Lemma obs_block_by_number n x : In (n, x) (f_chain f) -> block_by_number st n = Ok x.
+  Proof.
+    intros Hin. unfold block_by_number. rewrite (obs_by_number n x Hin).
+    destruct (obs_persisted n x Hin) as (_ & Hh).
+    unfold get_block, has_body, has_header, get_header.
+    destruct (lookup x (bs_unfin st)); [reflexivity|].
+    destruct (lookup x (bs_hdr st)); [reflexivity|congruence].
+  Qed.
+
   Lemma obs_abandoned x : f_abandoned f x = true ->
     lookup x (bs_unfin st) = None /\ lookup x (bs_hdr st) = None.
   Proof.
@@ -183,8 +193,8 @@ Lemma check_after g st' f' blocks nums : inv g st' f' -> roots_ok f' blocks ->
   /\ check_no_leftovers f' (observe st' blocks nums) = true.
 Proof.
   intros I' Hroots. split.
-  - unfold check_by_number, observe. cbn [o_bynum o_dbnum]. rewrite !andb_true_iff.
-    split; [split|]; apply forallb_forall.
+  - unfold check_by_number, observe. cbn [o_bynum o_dbnum o_blocknum]. rewrite !andb_true_iff.
+    split; [split; [split|]|]; apply forallb_forall.
     + intros [n r] Hin. apply in_map_iff in Hin as (k & Ek & _). inversion Ek; subst. cbn [fst snd].
       destruct (lookup n (f_chain f')) as [x|] eqn:El; auto. apply lookup_in in El.
       rewrite (obs_by_number g st' f' I' n x El). apply outcome_n_eqb_refl.
@@ -196,11 +206,16 @@ Proof.
       destruct (lookup n (map (fun k => (k, lookup k (bs_num st'))) nums)) as [r|] eqn:El; auto.
       apply lookup_map_fun in El. subst r. rewrite (proj1 (obs_persisted g st' f' I' n x Hin)).
       apply option_n_eqb_refl.
+    + intros [n x] Hin. cbn [fst snd].
+      destruct (lookup n (map (fun k => (k, block_by_number st' k)) nums)) as [r|] eqn:El; auto.
+      apply lookup_map_fun in El. subst r. rewrite (obs_block_by_number g st' f' I' n x Hin).
+      apply outcome_n_eqb_refl.
   - unfold check_no_leftovers, observe. cbn [o_flags]. apply forallb_forall.
     intros [x fl] Hin. apply in_map_iff in Hin as ([x0 r0] & Ek & Hb). inversion Ek; subst. cbn [fst snd].
     destruct (f_abandoned f' x) eqn:Ab; auto.
     destruct (obs_abandoned g st' f' I' x Ab) as (Hu & Hh).
-    cbn [fl_has fl_get fl_unfin fl_trie]. unfold has_header, get_header. rewrite Hu, Hh. cbn [negb andb].
+    cbn [fl_has fl_get fl_unfin fl_trie fl_body fl_block]. unfold get_block, has_body, has_header, get_header.
+    rewrite Hu, Hh. cbn [negb andb].
     destruct (mem r0 (bs_tries st')) eqn:Hm; auto. cbn [negb orb].
     unfold f_abandoned in Ab. destruct (lookup x (f_all f')) as [i|] eqn:El; [|discriminate].
     rewrite (Hroots x r0 i Hb El). apply (obs_tries g st' f' I' r0 Hm).
@@ -401,4 +416,59 @@ Proof.
   destruct (obs_abandoned g st f I x Ha) as (Hu & Hh).
   unfold has_header, get_header. rewrite Hu, Hh. repeat split; auto.
   intros i _ Hm. exact (obs_tries g st f I _ Hm).
+Qed.
+
+(* ------------------------------------------------------------------ block numbers are Go uint *)
+
+Lemma fnum_step f o B : snum_le (f_set f) B -> snum_le (f_set (f_step f o)) (B + 1).
+Proof.
+  intros H. destruct o as [hd root a|h r sid]; simpl.
+  - pose proof (snum_step (f_set f) B (OAdd hd a) H) as K. simpl in K. unfold f_add.
+    destruct (s_add (f_set f) hd a); simpl in *; auto.
+  - unfold f_request. destruct (f_accepts f h sid); [|apply snum_mono; exact H].
+    unfold f_with_setid, f_fin. cbn [f_set]. destruct (f_admissible f h); cbn [f_set]; [|apply snum_mono; exact H].
+    pose proof (snum_step (f_set f) B (OFin h) H) as K. simpl in K.
+    destruct (s_fin (f_set f) h); simpl in *; exact K.
+Qed.
+
+Lemma fnum_run ops : forall f B, snum_le (f_set f) B ->
+  snum_le (f_set (frun f ops)) (B + N.of_nat (length ops)).
+Proof.
+  induction ops as [|o r IH]; intros f B H.
+  - simpl. rewrite N.add_0_r. exact H.
+  - simpl frun. replace (B + N.of_nat (length (o :: r))) with ((B + 1) + N.of_nat (length r)) by (simpl length; lia).
+    apply IH. apply fnum_step. exact H.
+Qed.
+
+(* on every history shorter than 2^64 - 1 operations the AddBlock of the block tree inside the
+   BlockState never meets the 64-bit wrap-around of parent.number + 1 *)
+Lemma uint64_block_numbers g groot ops hd a :
+  history_ok g ops -> N.of_nat (length ops) + 1 < two64 ->
+  add_block64 (bs_tree (srun (genesis_state g groot) ops)) hd a
+  = add_block (bs_tree (srun (genesis_state g groot) ops)) hd a.
+Proof.
+  intros H Hb. pose proof (proj1 (inv_run g ops _ _ (inv2_genesis g groot) H)) as I.
+  apply (add_block64_sim _ _ (N.of_nat (length ops)) hd a (i_sim _ _ _ I)); auto.
+  pose proof (fnum_run ops (f_genesis g groot) 0) as K. simpl in K. apply K.
+  split; simpl; [lia|intros b []].
+Qed.
+
+(* bodies and whole blocks: by number for the finalised chain, gone for abandoned blocks *)
+Lemma finalised_block_by_number g groot ops n x :
+  history_ok g ops ->
+  In (n, x) (f_chain (frun (f_genesis g groot) ops)) ->
+  block_by_number (srun (genesis_state g groot) ops) n = Ok x.
+Proof.
+  intros H Hin.
+  exact (obs_block_by_number g _ _ (proj1 (inv_run g ops _ _ (inv2_genesis g groot) H)) n x Hin).
+Qed.
+
+Lemma no_leftover_blocks g groot ops x :
+  history_ok g ops ->
+  f_abandoned (frun (f_genesis g groot) ops) x = true ->
+  has_body (srun (genesis_state g groot) ops) x = false
+  /\ get_block (srun (genesis_state g groot) ops) x = false.
+Proof.
+  intros H Ha. destruct (no_leftovers g groot ops x H Ha) as (Hh & Hg & _).
+  unfold get_block, has_body. rewrite Hh, Hg. auto.
 Qed.
